@@ -3,10 +3,13 @@ package main
 // Calls (DESIGN §2.5): contracts, dependency models, pure UFs, effect-free skips, inlining.
 
 import (
+	"os"
+	"encoding/json"
 	"fmt"
 	"go/token"
 	"go/types"
 	"path"
+	"path/filepath"
 	"sort"
 	"strings"
 
@@ -538,10 +541,58 @@ func (f *Frame) calleeEnv(con *Contract, sig *types.Signature, args []EV, st, ol
 			env.names[n] = args[i]
 		}
 	}
+	// a parameter that was renamed since the baseline is still known to the contract by its old name (same position, same type)
+	if con.Kind == "func" && len(con.Params) == 0 {
+		for i, old := range f.vc.P.renamedParams(con.Key, sig) {
+			if _, taken := env.names[old]; old != "" && !taken && i < len(args) {
+				env.names[old] = args[i]
+				f.vc.used["PARAM-RENAMED:"+con.Key+":"+old] = true
+			}
+		}
+	}
 	for i := 0; i < sig.Results().Len(); i++ {
 		env.resNames = append(env.resNames, sig.Results().At(i).Name())
 	}
 	return env
+}
+
+// paramSig: names and types of the receiver and the parameters, in order.
+func paramSig(sig *types.Signature) [][2]string {
+	var out [][2]string
+	if sig.Recv() != nil {
+		out = append(out, [2]string{sig.Recv().Name(), sig.Recv().Type().String()})
+	}
+	for i := 0; i < sig.Params().Len(); i++ {
+		out = append(out, [2]string{sig.Params().At(i).Name(), sig.Params().At(i).Type().String()})
+	}
+	return out
+}
+
+// renamedParams: per position, the name the parameter had when the baseline was recorded, if it differs from the current
+// name and arity and types are unchanged; "" otherwise.  The baseline is /verif/expect_params.json (written with
+// --update-baseline).  A contract that names a removed parameter stays unevaluable (UNDECIDED).
+func (P *Program) renamedParams(key string, sig *types.Signature) []string {
+	if P.baseParams == nil {
+		P.baseParams = map[string][][2]string{}
+		if b, err := os.ReadFile(filepath.Join(P.verifDir, "expect_params.json")); err == nil {
+			json.Unmarshal(b, &P.baseParams)
+		}
+	}
+	base, ok := P.baseParams[key]
+	cur := paramSig(sig)
+	if !ok || len(base) != len(cur) {
+		return nil
+	}
+	out := make([]string, len(cur))
+	for i := range cur {
+		if base[i][1] != cur[i][1] {
+			return nil
+		}
+		if base[i][0] != cur[i][0] {
+			out[i] = base[i][0]
+		}
+	}
+	return out
 }
 
 func paramNames(sig *types.Signature, con *Contract) []string {
